@@ -550,7 +550,9 @@ def oracle_c07(rec):
         stats['checks'] += 1
         if lv['n'] != n:
             issues.append(dict(what='population-size', ev=i, n=lv['n'], expected=n))
-        if any(s != shape for s in lv['shapes']) or lv['best_shape'] != shape:
+        # (the user reset the incumbent to a default agent before the task: it takes the population's shape with the first sweep)
+        first_of_reset = bool(cfg.get('reset_best')) and lives and i == lives[0][0]
+        if any(s != shape for s in lv['shapes']) or (lv['best_shape'] != shape and not first_of_reset):
             issues.append(dict(what='shape', ev=i, shapes=[list(s) for s in lv['shapes']], expected=list(shape)))
         if lv['alias']:
             issues.append(dict(what='shared-storage', ev=i, pairs=lv['alias']))
